@@ -433,4 +433,40 @@ theorem exec_instance_refines (i : Inst) (sizes : List Nat) {Val : Type} (step :
   · have := seqFrom_spec [] (xTrace i) (by simpa using hseq)
     simpa using this
 
+/-! ### validity of the executor's own order, decided -/
+
+def validFrom (winsOf : Wins) (all : List Vtx) (done : List Vtx) : List Vtx → Bool
+  | [] => true
+  | v :: rest => ((depsOfV winsOf v).all fun d => done.contains d || !all.contains d) && validFrom winsOf all (done ++ [v]) rest
+
+/-- decides `ValidIn (dfGraph winsOf step) (· ∈ order) order` -/
+def validInOk (winsOf : Wins) (order : List Vtx) : Bool := decide order.Nodup && validFrom winsOf order [] order
+
+theorem validFrom_spec (winsOf : Wins) (all done rest : List Vtx) (h : validFrom winsOf all done rest = true) :
+    ∀ pre v post, rest = pre ++ v :: post → ∀ d ∈ depsOfV winsOf v, d ∈ done ++ pre ∨ d ∉ all := by
+  induction rest generalizing done with
+  | nil => intro pre v post h'; simp at h'
+  | cons a rest ih =>
+    intro pre v post hsplit d hd
+    simp only [validFrom, Bool.and_eq_true, List.all_eq_true, Bool.or_eq_true, List.contains_eq_mem,
+      decide_eq_true_eq, Bool.not_eq_true', decide_eq_false_iff_not] at h
+    cases pre with
+    | nil =>
+      simp only [List.nil_append, List.cons.injEq] at hsplit
+      obtain ⟨rfl, _⟩ := hsplit
+      simpa using h.1 d hd
+    | cons p ps =>
+      simp only [List.cons_append, List.cons.injEq] at hsplit
+      obtain ⟨rfl, hrest⟩ := hsplit
+      have := ih (done ++ [a]) h.2 ps v post hrest d hd
+      simpa [List.append_assoc] using this
+
+theorem validIn_of_ok {Val : Type} (winsOf : Wins) (step : Step Val) (order : List Vtx) (h : validInOk winsOf order = true) :
+    Rex.Dataflow.ValidIn (dfGraph winsOf step) (· ∈ order) order := by
+  simp only [validInOk, Bool.and_eq_true, decide_eq_true_eq] at h
+  refine ⟨h.1, fun v hv => hv, ?_⟩
+  intro pre v post hsplit d hd
+  have := validFrom_spec winsOf order [] order h.2 pre v post hsplit d hd
+  simpa using this
+
 end Rex.Sched
